@@ -100,7 +100,7 @@ def main():
         except Exception:
             pass
         items.append({"name": os.path.basename(d), "kind": "seeded", "patch": os.path.join(d, "patch.diff"),
-                      "expected": meta.get("expected_static", "reported")})
+                      "expected": meta.get("expected_static", "reported"), "reported_by": meta.get("reported_by")})
     for f in sorted(glob.glob(os.path.join(VERIF, "variants", pid, "*.diff"))):
         # reverse patches of the repairs made in /repo: each re-introduces a defect the check must report
         items.append({"name": os.path.basename(f)[:-5], "kind": "seeded", "patch": f, "expected": "reported"})
@@ -124,13 +124,22 @@ def main():
             # type-check failure or undecided: the variant did not yield a judged program
             why = (cannot[0] if cannot else next((l for l in lines if l), ""))[:220]
             res["does_not_typecheck"].append({"variant": it["name"], "why": why})
+        elif it.get("reported_by"):
+            # the change breaks this property through a discipline that another property's check owns
+            rc2, viol2, _, _, _ = run_check(repo, it["reported_by"], ov)
+            if rc2 != 0 and viol2:
+                res.setdefault("reported_by_another_check", []).append({"variant": it["name"], "check": it["reported_by"], "first_report": viol2[0][:220]})
+            else:
+                res["missed"].append(it["name"])
+                print(f"NOTE rule-not-armed property={pid} variant={it['name']} (expected to be reported by the check of {it['reported_by']})")
         elif it["expected"] == "missed":
             res["documented_not_covered"].append(it["name"])
         else:
             res["missed"].append(it["name"])
             print(f"NOTE rule-not-armed property={pid} variant={it['name']} (the change applies to the current tree and is not reported)")
     print(f"variant pass property={pid}: tried={res['tried']} reported={len(res['reported'])} stale={len(res['stale'])} "
-          f"missed={len(res['missed'])} documented_not_covered={len(res['documented_not_covered'])} not_judged={len(res['does_not_typecheck'])}")
+          f"missed={len(res['missed'])} documented_not_covered={len(res['documented_not_covered'])} not_judged={len(res['does_not_typecheck'])}"
+          + (f" reported_by_another_check={len(res['reported_by_another_check'])}" if res.get('reported_by_another_check') else ""))
     ev = os.path.join(VERIF, "evidence", pid + ".json")
     if os.path.exists(ev) and repo == "/repo":
         e = json.load(open(ev))
